@@ -369,6 +369,10 @@ class Ombott:
             elif isinstance(first, str):
                 new_iter = (it.encode(response.charset) for it in itertools.chain([first], iout))
             else:
+                # the iterable is abandoned here: release it like a server would
+                close = getattr(out, 'close', None)
+                if close:
+                    close()
                 out = HTTPError(500, f'Unsupported response type: {type(first)}')
                 continue                                         # -----------------^
             close = getattr(out, 'close', None)
